@@ -1,9 +1,181 @@
 import CalVerif.Lemmas.Geometry
 import CalVerif.Props.C05
 /-! # C17 — merged regions and tables are reported with the geometry the file declares
-    Property theorems only (helper lemmas live in `Lemmas/Geometry.lean`). -/
+    Property theorems only (helper lemmas live in `Lemmas/Geometry.lean`).
+
+    Every theorem about `get_dimension` and its callers is stated for an arbitrary `Mode`, i.e. for the
+    checked-arithmetic and for the saturating-arithmetic variant of the code alike (see `Model/Geometry.lean`).
+    The XML layer is not modelled: the statements start at the event list (`Spec/Geometry.lean` renders the
+    declarations as events under any namespace prefix and between arbitrary inert events). -/
 namespace Geometry
 set_option linter.unusedSectionVars false
+
+/-! ## reference texts -/
+
+/-- every cell name of the grid `A1 … XFD1048576` parses to its 0-based coordinates -/
+theorem cell_roundtrip (m : Mode) (row col : Nat) (hr : row < 1048576) (hc : col < 16384) :
+    getRowColumn m (renderCell row col) = .ok (row, col) :=
+  getRowColumn_renderCell m row col hr hc
+
+/-- `get_dimension` maps the reference text of every well-ordered rectangle up to `XFD1048576` back to that
+    rectangle: in the form Excel writes (`B2` for one cell, `B2:D7` otherwise) and in the two-corner form
+    (`B2:B2` for one cell) -/
+theorem dimension_roundtrip (m : Mode) (d : Rect) (hv : d.Valid) :
+    getDimension m (renderRef d) = .ok d ∧ getDimension m (renderRef2 d) = .ok d :=
+  ⟨getDimension_renderRef m d hv, getDimension_renderRef2 m d hv⟩
+
+/-- a single-cell reference denotes the one-cell rectangle -/
+theorem dimension_single_cell (m : Mode) (row col : Nat) (hr : row < 1048576) (hc : col < 16384) :
+    getDimension m (renderCell row col) = .ok ⟨row, col, row, col⟩ :=
+  getDimension_renderCell m row col hr hc
+
+example : (⟨0, 26, 1048575, 16383⟩ : Rect).Valid := by decide
+example : renderRef ⟨0, 26, 1048575, 16383⟩ = [65, 65, 49, 58, 88, 70, 68, 49, 48, 52, 56, 53, 55, 54] := by decide
+example : renderRef ⟨6, 701, 6, 701⟩ = [90, 90, 55] := by decide
+
+/-! ## xlsx merged regions -/
+
+/-- `read_merged_regions` (one sheet) and `worksheet_merge_cells` both return exactly the regions the sheet
+    declares — same count, same order, same corners — whatever the namespace prefix, the other attributes of
+    the `mergeCell` elements, the spelling of a one-cell region and the (inert) events around and between them;
+    a sheet without a `mergeCells` element has none -/
+theorem merge_regions_exact (m : Mode) (s : SheetDecl) (hs : s.Ok) :
+    regionsOfSheet m s.events = .ok s.regions ∧ worksheetMergeCells m s.events = .ok s.regions := by
+  obtain ⟨hp, hb, ha, hd, hmc⟩ := hs
+  have hl := localName_qn s.pre nMergeCells hp nMergeCells_noColon
+  unfold SheetDecl.events SheetDecl.regions
+  by_cases hmc' : s.mc = true
+  · simp only [hmc', if_true, renderSheet, List.append_assoc, List.cons_append]
+    constructor
+    · rw [regionsOfSheet_inert m s.before _ hb]
+      simp only [regionsOfSheet, hl, nMergeCell_ne.symm, if_false]
+      exact regionsOfSheet_render m s.pre hp s.after ha s.merges hd
+    · rw [worksheetMergeCells_inert m s.before _ hb]
+      simp only [worksheetMergeCells, hl, if_true]
+      rw [readMergeCells_render m s.pre hp s.after s.merges hd]
+  · have hf : s.mc = false := by simpa using hmc'
+    have hnil := hmc hf
+    simp only [hf, Bool.false_eq_true, if_false, hnil, List.map_nil]
+    have hall : ∀ e ∈ s.before ++ s.after, e.Inert := by
+      intro e he
+      rcases List.mem_append.mp he with h | h
+      · exact hb e h
+      · exact ha e h
+    have h1 := regionsOfSheet_inert m (s.before ++ s.after) [] hall
+    have h2 := worksheetMergeCells_inert m (s.before ++ s.after) [] hall
+    simp only [List.append_nil] at h1 h2
+    rw [h1, h2]
+    exact ⟨rfl, rfl⟩
+
+/-- `read_merged_regions` over the workbook: the list is the declared regions of every sheet in sheet order,
+    each attributed to the name and part path of the sheet that declares it -/
+theorem merged_regions_attribution (m : Mode) : ∀ (sheets : List SheetDecl), (∀ s ∈ sheets, s.Ok) →
+    mergedRegions m (sheets.map (·.part)) =
+      .ok (sheets.flatMap (fun s => s.regions.map (fun d => (s.name, s.path, d))))
+  | [], _ => rfl
+  | s :: rest, h => by
+    have ih := merged_regions_attribution m rest (fun x hx => h x (List.mem_cons_of_mem _ hx))
+    have hs := (merge_regions_exact m s (h s (List.mem_cons_self ..))).1
+    have hpart : s.part = ⟨s.name, s.path, some s.events⟩ := rfl
+    simp only [List.map_cons, hpart, mergedRegions, hs, ih, List.flatMap_cons]
+
+/-- `merged_regions_by_sheet`: for a sheet whose name no other sheet bears, exactly its own declared regions -/
+theorem merged_regions_by_sheet_exact (m : Mode) (pre post : List SheetDecl) (s : SheetDecl)
+    (hok : ∀ x ∈ pre ++ s :: post, x.Ok) (huniq : ∀ x ∈ pre ++ post, x.name ≠ s.name)
+    (all : List (Bytes × Bytes × Rect)) (h : mergedRegions m ((pre ++ s :: post).map (·.part)) = .ok all) :
+    mergedRegionsBySheet all s.name = s.regions.map (fun d => (s.name, s.path, d)) := by
+  rw [merged_regions_attribution m _ hok] at h
+  injection h with h
+  subst h
+  unfold mergedRegionsBySheet
+  have hnone : ∀ (l : List SheetDecl), (∀ x ∈ l, x.name ≠ s.name) →
+      (l.flatMap (fun s' => s'.regions.map (fun d => (s'.name, s'.path, d)))).filter (fun r => r.1 = s.name) = [] := by
+    intro l hl
+    rw [List.filter_eq_nil_iff]
+    intro r hr
+    obtain ⟨x, hx, hr⟩ := List.mem_flatMap.mp hr
+    obtain ⟨d, _, rfl⟩ := List.mem_map.mp hr
+    simpa using hl x hx
+  have hself : (s.regions.map (fun d => (s.name, s.path, d))).filter (fun r => r.1 = s.name) =
+      s.regions.map (fun d => (s.name, s.path, d)) := by
+    rw [List.filter_eq_self]
+    intro r hr
+    obtain ⟨d, _, rfl⟩ := List.mem_map.mp hr
+    simp
+  rw [List.flatMap_append, List.flatMap_cons, List.filter_append, List.filter_append,
+    hnone pre (fun x hx => huniq x (List.mem_append_left _ hx)),
+    hnone post (fun x hx => huniq x (List.mem_append_right _ hx)), hself]
+  simp
+
+/-- a non-trivial sheet declaration meeting `SheetDecl.Ok`: prefix `x`, a text node before, two regions, the
+    second a single cell spelled with two corners after an unrelated attribute -/
+example : (⟨[83], [112], ['x'], [.text [10]], true,
+    [{ rect := ⟨1, 1, 3, 2⟩ }, { rect := ⟨1048575, 16383, 1048575, 16383⟩, two := true, a1 := [(['i', 'd'], [49])], gap := [.text [32]] }],
+    [.end_ ['x', ':', 'w', 'o', 'r', 'k', 's', 'h', 'e', 'e', 't']]⟩ : SheetDecl).Ok := by
+  refine ⟨by decide, ?_, ?_, ?_, by decide⟩
+  · intro e he; simp at he; subst he; trivial
+  · intro e he; simp at he; subst he; simp [Ev.Inert, localName, nMergeCells]
+  · intro d hd
+    simp at hd
+    rcases hd with rfl | rfl
+    · exact ⟨by decide, by simp, by simp⟩
+    · refine ⟨by decide, ?_, ?_⟩
+      · intro a ha; simp at ha; subst ha; decide
+      · intro e he; simp at he; subst he; trivial
+
+/-! ## xls merged regions -/
+
+/-- `parse_merge_cells` decodes the payload of a MERGEDCELLS record to exactly the encoded regions (count,
+    order, corners), for any number of regions a record can hold and every `u16` coordinate (so in particular
+    up to `IV65536`); bytes after the last entry are ignored -/
+theorem mergecells_roundtrip (ds : List Rect) (hn : ds.length < 8192) (hfit : ∀ d ∈ ds, d.Fits16)
+    (tail : Bytes) : parseMergeCells (encodeMergedCells ds ++ tail) = .ok ds := by
+  unfold parseMergeCells encodeMergedCells
+  have h0 : readU16At (u16le ds.length ++ ds.flatMap encodeRef8 ++ tail) 0 = .ok ds.length := by
+    have := readU16At_u16le [] (ds.flatMap encodeRef8 ++ tail) ds.length 0 (by omega) rfl
+    simpa [List.append_assoc] using this
+  rw [h0]
+  have := mcLoop_encode (u16le ds.length) rfl tail ds [] (by simpa using hn) hfit
+  simpa [List.append_assoc] using this
+
+/-- the sheet record loop: the regions of all MERGEDCELLS records before the EOF record, concatenated in
+    record order; other records contribute nothing -/
+theorem sheet_mergecells_exact : ∀ (recs : List (Nat × Bytes)) (blocks : List (List Rect)),
+    (∀ r ∈ recs, r.1 ≠ 0x000A) →
+    (recs.filter (fun r => r.1 = 0x00E5)).map (·.2) = blocks.map encodeMergedCells →
+    (∀ b ∈ blocks, b.length < 8192 ∧ ∀ d ∈ b, d.Fits16) →
+    ∀ (after : List (Nat × Bytes)), sheetMergeCells (recs ++ (0x000A, []) :: after) = .ok blocks.flatten
+  | [], blocks, _, hb, _, after => by
+    cases blocks with
+    | nil => simp [sheetMergeCells]
+    | cons b bs => simp at hb
+  | (typ, data) :: rest, blocks, hne, hb, hfit, after => by
+    have hne' : ∀ r ∈ rest, r.1 ≠ 0x000A := fun r hr => hne r (List.mem_cons_of_mem _ hr)
+    have htyp : typ ≠ 0x000A := hne (typ, data) (List.mem_cons_self ..)
+    by_cases hm : typ = 0x00E5
+    · subst hm
+      cases blocks with
+      | nil => simp at hb
+      | cons b bs =>
+        simp only [List.filter_cons, decide_true, if_true, List.map_cons, List.cons.injEq] at hb
+        obtain ⟨hdata, hrest⟩ := hb
+        have hbfit := hfit b (List.mem_cons_self ..)
+        have ih := sheet_mergecells_exact rest bs hne' hrest (fun x hx => hfit x (List.mem_cons_of_mem _ hx)) after
+        have hp : parseMergeCells data = .ok b := by
+          have := mergecells_roundtrip b hbfit.1 hbfit.2 []
+          rw [List.append_nil] at this
+          rw [hdata]; exact this
+        simp only [List.cons_append, sheetMergeCells, hp, ih, List.flatten_cons]
+        simp
+    · have hf : (List.filter (fun r => decide (r.1 = 0x00E5)) ((typ, data) :: rest)) =
+          List.filter (fun r => decide (r.1 = 0x00E5)) rest := by
+        rw [List.filter_cons]; simp [hm]
+      rw [hf] at hb
+      have ih := sheet_mergecells_exact rest blocks hne' hb hfit after
+      simp only [List.cons_append, sheetMergeCells, htyp, hm, if_false, ih]
+
+example : parseMergeCells (encodeMergedCells [⟨0, 0, 1, 1⟩, ⟨65535, 255, 65535, 255⟩]) =
+    .ok [⟨0, 0, 1, 1⟩, ⟨65535, 255, 65535, 255⟩] := by decide
 
 /-! ## tables -/
 
@@ -21,6 +193,20 @@ theorem table_geometry_of (d : Rect) (h t : Nat) (_hh : h ≤ 1) (_ht : t ≤ 1)
   have e1 : (if h ≠ 0 then d.sr + h else d.sr) = d.sr + h := by split <;> omega
   have e2 : (if t ≠ 0 then d.er - t else d.er) = d.er - t := by split <;> omega
   rw [e1, e2]
+
+/-- `table_geometry`: for every table reference inside the grid, `headerRowCount ∈ {0, 1}` and
+    `totalsRowCount ∈ {0, 1}` independently (and no insert row), the data rectangle computed from the `ref`
+    text is the reference minus its header rows at the top and its totals rows at the bottom. (A totals row
+    on a reference ending in row 1 is `table_geometry_totals_underflow`.) -/
+theorem table_geometry (m : Mode) (d : Rect) (hv : d.Valid) (h t : Nat) (hh : h ≤ 1) (ht : t ≤ 1)
+    (hroom : t ≤ d.er) :
+    tableDims m (renderRef d) h t false = .ok ⟨d.sr + h, d.sc, d.er - t, d.ec⟩ ∧
+    tableDims m (renderRef2 d) h t false = .ok ⟨d.sr + h, d.sc, d.er - t, d.ec⟩ := by
+  obtain ⟨h1, h2, h3, h4⟩ := hv
+  have hbig : d.sr + h < U32 := by simp only [U32]; omega
+  unfold tableDims
+  rw [getDimension_renderRef m d ⟨h1, h2, h3, h4⟩, getDimension_renderRef2 m d ⟨h1, h2, h3, h4⟩]
+  exact ⟨table_geometry_of d h t hh ht hroom hbig, table_geometry_of d h t hh ht hroom hbig⟩
 
 /-- a totals row declared on a reference that ends in row 0 underflows (`u32` subtraction) -/
 theorem table_geometry_totals_underflow (d : Rect) (h t : Nat) (ht : t ≠ 0) (hlt : d.er < t)
@@ -57,5 +243,34 @@ theorem table_data_degenerate {α : Type} [Inhabited α] (rng : Range.Rng α) (d
   have : ¬ (d.sr < d.er ∨ d.sr = d.er ∧ d.sc ≤ d.ec) := by omega
   simp only [this, not_false_eq_true, if_true]
   exact ⟨_, rfl⟩
+
+/-- end to end for one table: a reference inside the grid, 0/1 header rows, 0/1 totals rows, at least one
+    data row, fewer than 2^32 data cells; whatever the sheet's range is (any consistent `Range`, empty or
+    not, overlapping the table or not): the table's data range is the reference minus header and totals
+    rows and shows the sheet's values over it -/
+theorem table_exact {α : Type} [Inhabited α] (m : Mode) (rng : Range.Rng α) (hi : Range.Inv rng)
+    (d : Rect) (hv : d.Valid) (h t : Nat) (hh : h ≤ 1) (ht : t ≤ 1) (hrows : d.sr + h + t ≤ d.er)
+    (harea : (d.er - t - (d.sr + h) + 1) * (d.ec - d.sc + 1) < Range.U32) :
+    ∃ dims tbl, tableDims m (renderRef d) h t false = .ok dims ∧ tableData rng dims = .ok tbl ∧
+      tbl.start = some (d.sr + h, d.sc) ∧ tbl.end_ = some (d.er - t, d.ec) ∧
+      ∀ p q, tbl.valAt p q =
+        if d.sr + h ≤ p ∧ p ≤ d.er - t ∧ d.sc ≤ q ∧ q ≤ d.ec then rng.valAt p q else default := by
+  have hg := (table_geometry m d hv h t hh ht (by omega)).1
+  obtain ⟨h1, h2, h3, h4⟩ := hv
+  have hpre : Range.rectPre (d.sr + h) d.sc (d.er - t) d.ec := by
+    refine ⟨by omega, h2, ?_, ?_, harea⟩ <;> simp only [Range.U32] <;> omega
+  obtain ⟨tbl, htbl⟩ := Range.range_of_pre rng (d.sr + h) d.sc (d.er - t) d.ec hpre
+  have hd : tableData rng ⟨d.sr + h, d.sc, d.er - t, d.ec⟩ = .ok tbl := htbl
+  obtain ⟨hs, he, hval⟩ := table_data_spec rng hi _ tbl hd
+  refine ⟨_, tbl, hg, hd, hs, he, fun p q => ?_⟩
+  rw [hval p q]
+  simp only [Rect.contains, Bool.and_eq_true, decide_eq_true_eq, ge_iff_le]
+  by_cases hc : d.sr + h ≤ p ∧ p ≤ d.er - t ∧ d.sc ≤ q ∧ q ≤ d.ec
+  · rw [if_pos hc, if_pos ⟨⟨⟨hc.1, hc.2.1⟩, hc.2.2.1⟩, hc.2.2.2⟩]
+  · rw [if_neg hc, if_neg (fun h' => hc ⟨h'.1.1.1, h'.1.1.2, h'.1.2, h'.2⟩)]
+
+/-- the ledger's D17 input: `ref="B2:C5"`, no header row, one totals row: the data are rows 2–4 -/
+example (m : Mode) : tableDims m (renderRef ⟨1, 1, 4, 2⟩) 0 1 false = .ok ⟨1, 1, 3, 2⟩ :=
+  (table_geometry m ⟨1, 1, 4, 2⟩ (by decide) 0 1 (by decide) (by decide) (by decide)).1
 
 end Geometry
